@@ -1,2 +1,667 @@
-// Package c12 decides C12 (see DESIGN.md section 4). Not built yet.
+// Package c12 decides C12 (standard-library overlays merge exactly as the
+// directives say).
+//
+// spec/Overlay.tla is the reference semantics of the documented merge
+// (doc/pargma.md, comments of parseAndAugment / overrideInfo / pruneImports);
+// spec/OverlayScen.tla makes TLC enumerate pairs (original side, overlay side)
+// together with the predicted item set Merged and checks the theorems of the
+// reference on every pair.  This package renders each pair as two Go files
+// with provenance markers, parses them, runs the REAL augmentOverlayFile /
+// augmentOriginalImports / augmentOriginalFile (build.VerifAugment), reads the
+// item set back from the resulting ASTs and compares; when the reference says
+// the pair is consistent the merged package must pass go/types.  A last phase
+// merges every overlay package of compiler/natives with its GOROOT original
+// and checks version-independent structural invariants.
+//
+// VERIF_REPLAY=<dir> re-decides the pair recorded in <dir>/scenario.json.
+// VERIF_C12_CORRUPT=pred falsifies one predicted item (binding not vacuous).
 package c12
+
+import (
+	"encoding/json"
+	"fmt"
+	"go/ast"
+	"go/parser"
+	"go/token"
+	"go/types"
+	"math/rand"
+	"os"
+	"path/filepath"
+	"sort"
+	"strings"
+	"sync"
+	"time"
+
+	gbuild "github.com/gopherjs/gopherjs/build"
+
+	"verif/core"
+	"verif/gjs"
+	"verif/reg"
+	"verif/tlcx"
+)
+
+func init() { reg.Register("C12", "model_checking", Run) }
+
+// ---------------------------------------------------------------- importer
+
+var fakeSrc = map[string]string{
+	"vp/p1": "package p1\nconst V = 0\nfunc f(x int32) int32 { return x }\n",
+	"vp/p2": "package p2\nconst V = 0\n",
+	"vp/p3": "package p3\n",
+	"vp/p4": "package p4\nconst DotV = 0\n",
+	"sync":  "package sync\ntype Mutex struct{}\n",
+	"github.com/gopherjs/gopherjs/nosync": "package nosync\ntype Mutex struct{}\n",
+	"embed": "package embed\ntype FS struct{}\n",
+}
+
+type fakeImporter map[string]*types.Package
+
+func (fi fakeImporter) Import(path string) (*types.Package, error) {
+	if path == "unsafe" {
+		return types.Unsafe, nil
+	}
+	if p, ok := fi[path]; ok {
+		return p, nil
+	}
+	return nil, fmt.Errorf("package %q is not part of the scenario universe", path)
+}
+
+func newImporter() fakeImporter {
+	fi := fakeImporter{}
+	for path, src := range fakeSrc {
+		fset := token.NewFileSet()
+		f, err := parser.ParseFile(fset, "x.go", src, 0)
+		if err != nil {
+			panic(err)
+		}
+		p, err := (&types.Config{}).Check(path, fset, []*ast.File{f}, nil)
+		if err != nil {
+			panic(err)
+		}
+		fi[path] = p
+	}
+	return fi
+}
+
+var importers = sync.Pool{New: func() any { return newImporter() }}
+
+func typeCheck(fset *token.FileSet, files []*ast.File) []string {
+	fi := importers.Get().(fakeImporter)
+	defer importers.Put(fi)
+	var errs []string
+	conf := types.Config{Importer: fi, Error: func(err error) { errs = append(errs, err.Error()) }}
+	func() {
+		defer func() {
+			if r := recover(); r != nil {
+				errs = append(errs, fmt.Sprintf("type checker panicked: %v", r))
+			}
+		}()
+		conf.Check("pkg", fset, files, nil)
+	}()
+	return errs
+}
+
+// ---------------------------------------------------------------- one pair
+
+type outcome struct {
+	discard  string // non-empty: the guard disagrees with the specification / the rendering
+	missing  []obsT
+	extra    []obsT
+	notes    []string
+	tcErrs   []string
+	panicMsg string
+	origSrc  string
+	ovlSrc   string
+	merged   string
+}
+
+func parse(fset *token.FileSet, name, src string) (*ast.File, error) {
+	return parser.ParseFile(fset, name, src, parser.ParseComments)
+}
+
+// decide renders, merges and compares one pair.
+func decide(r *recT, style int) *outcome {
+	oc := &outcome{origSrc: renderSide(&r.O, 1, style), ovlSrc: renderSide(&r.V, 2, style>>2)}
+	fset := token.NewFileSet()
+	// guard 1: the rendering of the original alone is a Go package exactly when the
+	// specification says so, and merging it with no overlay is the identity
+	{
+		of, err := parse(fset, "orig.go", oc.origSrc)
+		if err != nil {
+			oc.discard = "rendered original does not parse: " + err.Error()
+			return oc
+		}
+		hf, _ := parse(fset, "helper.go", helperSrc)
+		errs := typeCheck(fset, []*ast.File{of, hf})
+		if r.Alone != (len(errs) == 0) {
+			oc.discard = fmt.Sprintf("original alone: specification says well-typed=%v, go/types: %v", r.Alone, errs)
+			return oc
+		}
+	}
+	of, _ := parse(fset, "orig.go", oc.origSrc)
+	hf, _ := parse(fset, "helper.go", helperSrc)
+	vf, err := parse(fset, "overlay.go", oc.ovlSrc)
+	if err != nil {
+		oc.discard = "rendered overlay does not parse: " + err.Error()
+		return oc
+	}
+	var res []*ast.File
+	func() {
+		defer func() {
+			if p := recover(); p != nil {
+				oc.panicMsg = fmt.Sprint(p)
+			}
+		}()
+		res = gbuild.VerifAugment(r.Ip, []*ast.File{of, hf}, []*ast.File{vf})
+	}()
+	if oc.panicMsg != "" {
+		return oc
+	}
+	if len(res) != 3 || res[0] != vf || res[1] != of {
+		oc.notes = append(oc.notes, fmt.Sprintf("VerifAugment returned %d files in an unexpected order", len(res)))
+		return oc
+	}
+	obs := map[obsT]bool{}
+	oc.notes = append(oc.notes, extract(vf, 2, obs)...)
+	oc.notes = append(oc.notes, extract(of, 1, obs)...)
+	oc.missing, oc.extra = diff(predicted(r), obs)
+	if r.Tc {
+		oc.tcErrs = typeCheck(fset, []*ast.File{vf, of, hf})
+	}
+	if len(oc.missing)+len(oc.extra)+len(oc.notes)+len(oc.tcErrs) > 0 {
+		oc.merged = "// ---- overlay after merge\n" + printFile(fset, vf) + "\n// ---- original after merge\n" + printFile(fset, of)
+	}
+	return oc
+}
+
+func printFile(fset *token.FileSet, f *ast.File) (s string) {
+	defer func() {
+		if r := recover(); r != nil {
+			s = fmt.Sprintf("(cannot print: %v)", r)
+		}
+	}()
+	var b strings.Builder
+	b.WriteString("package " + f.Name.Name + "\n")
+	for _, d := range f.Decls {
+		if d == nil {
+			b.WriteString("<nil decl>\n")
+			continue
+		}
+		b.WriteString(nodeString(fset, d) + "\n")
+	}
+	return b.String()
+}
+
+// ---------------------------------------------------------------- classification
+
+// classify splits a rejected observation into parts, each with the classifier
+// keys that fully explain it (no key: a new violation).
+type part struct {
+	keys    []string
+	summary string
+}
+
+func findDecl(r *recT, tag int) *declT {
+	side, di := tag/1000, tag/100%10
+	s := &r.O
+	if side == 2 {
+		s = &r.V
+	}
+	if di < 1 || di > len(s.Decls) {
+		return nil
+	}
+	return &s.Decls[di-1]
+}
+
+func classify(r *recT, oc *outcome) []part {
+	var parts []part
+	rest := []string{}
+	iota, floatLnk := []string{}, []string{}
+	overridden := func(name string) bool {
+		for i := range r.V.Decls {
+			d := &r.V.Decls[i]
+			if isFn(d) {
+				if d.K != "meth" && d.N == name {
+					return true
+				}
+				continue
+			}
+			for _, sp := range d.Specs {
+				for _, n := range sp.Ns {
+					if n == name {
+						return true
+					}
+				}
+			}
+		}
+		return false
+	}
+	// original iota groups one of whose members the overlay overrides
+	iotaNames := map[string]bool{}
+	for i := range r.O.Decls {
+		d := &r.O.Decls[i]
+		if d.K == "const" && len(d.Specs) > 0 && d.Specs[0].F == "iota" {
+			hit := false
+			for _, sp := range d.Specs {
+				if overridden(sp.Ns[0]) {
+					hit = true
+				}
+			}
+			if hit {
+				for _, sp := range d.Specs {
+					iotaNames[sp.Ns[0]] = true
+				}
+			}
+		}
+	}
+	floating := map[string]bool{}
+	for _, s := range []*sideT{&r.O, &r.V} {
+		for i := range s.Decls {
+			if s.Decls[i].K == "lnk" && s.Decls[i].Rk == "float" {
+				floating[fmt.Sprintf("%d:linkname:%s", map[bool]int{true: 1, false: 2}[s == &r.O], s.Decls[i].N)] = true
+			}
+		}
+	}
+	floatSide := map[int]bool{}
+	var unsafeGone []obsT
+	handle := func(o obsT, what string) {
+		switch {
+		case o.K == "const" && o.Ord/1000 == 1 && iotaNames[o.Key]:
+			iota = append(iota, what+" "+o.String())
+		case what == "missing" && o.K == "directive" && floating[fmt.Sprintf("%d:%s", o.Ord/1000, o.Key)]:
+			floatLnk = append(floatLnk, what+" "+o.String())
+			floatSide[o.Ord/1000] = true
+		case what == "missing" && o.K == "import" && o.Key == "unsafe|_":
+			unsafeGone = append(unsafeGone, o)
+		default:
+			rest = append(rest, what+" "+o.String())
+		}
+	}
+	for _, o := range oc.missing {
+		handle(o, "missing")
+	}
+	for _, o := range oc.extra {
+		handle(o, "unexpected")
+	}
+	for _, o := range unsafeGone {
+		// with the directive gone the "unsafe" import that only served it is pruned as well
+		if floatSide[o.Ord/1000] {
+			floatLnk = append(floatLnk, "missing "+o.String())
+		} else {
+			rest = append(rest, "missing "+o.String())
+		}
+	}
+	for _, n := range oc.notes {
+		rest = append(rest, "malformed: "+n)
+	}
+	for _, e := range oc.tcErrs {
+		switch {
+		case len(iota) > 0 && (strings.Contains(e, "missing init expr") || strings.Contains(e, "missing constant value")):
+			iota = append(iota, "type error: "+e)
+		default:
+			rest = append(rest, "type error: "+e)
+		}
+	}
+	if len(iota) > 0 {
+		parts = append(parts, part{[]string{"const_iota_group_member_removed"}, "a member of an implicit-repetition const group is overridden: the following members are renumbered (or lose their expression): " + strings.Join(iota, "; ")})
+	}
+	if len(floatLnk) > 0 {
+		parts = append(parts, part{[]string{"floating_linkname_directive_dropped"}, "a //go:linkname directive that is not part of a doc comment is dropped when another declaration of its file is removed: " + strings.Join(floatLnk, "; ")})
+	}
+	if len(rest) > 0 {
+		parts = append(parts, part{nil, strings.Join(rest, "; ")})
+	}
+	return parts
+}
+
+// ---------------------------------------------------------------- scenario generation
+
+type pairDesc struct {
+	Ob bool    `json:"ob"`
+	Vb bool    `json:"vb"`
+	Ip string  `json:"ip"`
+	O  [][]int `json:"o"`
+	V  [][]int `json:"v"`
+}
+
+// class indices into OverlayScen!ClassNames, weighted
+var classNames = []string{"func", "meth", "lnk", "type1", "type2", "var1", "var2", "var3", "const1", "const2", "iota"}
+var classWeights = []int{5, 5, 2, 4, 2, 5, 3, 1, 3, 2, 2}
+
+func pickClass(rng *rand.Rand) int {
+	tot := 0
+	for _, w := range classWeights {
+		tot += w
+	}
+	x := rng.Intn(tot)
+	for i, w := range classWeights {
+		if x < w {
+			return i
+		}
+		x -= w
+	}
+	return 0
+}
+
+func pickLen(rng *rand.Rand) int {
+	switch x := rng.Intn(20); {
+	case x < 1:
+		return 0
+	case x < 7:
+		return 1
+	case x < 14:
+		return 2
+	default:
+		return 3
+	}
+}
+
+func genPair(rng *rand.Rand) pairDesc {
+	d := pairDesc{Ob: rng.Intn(4) == 0, Vb: rng.Intn(4) == 0, Ip: "vp/pkg", O: [][]int{}, V: [][]int{}}
+	if rng.Intn(3) == 0 {
+		d.Ip = "math/rand"
+	}
+	for n := pickLen(rng); n > 0; n-- {
+		d.O = append(d.O, []int{pickClass(rng), rng.Intn(1 << 20)})
+	}
+	for n := pickLen(rng); n > 0; n-- {
+		d.V = append(d.V, []int{pickClass(rng), rng.Intn(1 << 20), rng.Intn(1 << 10)})
+	}
+	return d
+}
+
+func setOf(xs ...string) string {
+	q := make([]string, len(xs))
+	for i, x := range xs {
+		q[i] = fmt.Sprintf("%q", x)
+	}
+	return "{" + strings.Join(q, ", ") + "}"
+}
+
+type scenCfg struct {
+	names, fu, vu, ips, classes []string
+	bls                         string
+	mode                        string
+	maxo, maxv, nchunks         int
+}
+
+func (s scenCfg) text() string {
+	return "SPECIFICATION Spec\nINVARIANT Thm\nINVARIANT Emit\nCHECK_DEADLOCK FALSE\nCONSTANTS\n" +
+		"Names = " + setOf(s.names...) + "\nFU = " + setOf(s.fu...) + "\nVU = " + setOf(s.vu...) + "\nIps = " + setOf(s.ips...) +
+		"\nMode = \"" + s.mode + "\"\nClasses = " + setOf(s.classes...) + "\nBls = " + s.bls +
+		fmt.Sprintf("\nMaxO = %d\nMaxV = %d\nNChunks = %d\nOutFile = \"scen\"\n", s.maxo, s.maxv, s.nchunks)
+}
+
+// loadRecs decodes the files OverlayScen wrote.
+func loadRecs(dir string) ([]*recT, int, error) {
+	files, _ := filepath.Glob(filepath.Join(dir, "scen.*.ndjson"))
+	sort.Strings(files)
+	var recs []*recT
+	invalid := 0
+	for _, f := range files {
+		err := tlcx.ReadNDJSON(f, func(raw json.RawMessage) error {
+			var inner string
+			if err := json.Unmarshal(raw, &inner); err != nil {
+				return err
+			}
+			var batch []*recT
+			if err := json.Unmarshal([]byte(inner), &batch); err != nil {
+				return err
+			}
+			for _, r := range batch {
+				if !r.Ok {
+					invalid++
+					continue
+				}
+				recs = append(recs, r)
+			}
+			return nil
+		})
+		if err != nil {
+			return nil, 0, fmt.Errorf("%s: %v", f, err)
+		}
+	}
+	return recs, invalid, nil
+}
+
+func canonical(r *recT) string {
+	b, _ := json.Marshal([]any{r.O, r.V, r.Ip})
+	return string(b)
+}
+
+// nontrivial: the overlay says something about the original (a key or a
+// receiver type in common) or carries a directive.
+func nontrivial(r *recT) bool {
+	keys := map[string]bool{}
+	for i := range r.O.Decls {
+		d := &r.O.Decls[i]
+		if isFn(d) {
+			keys[d.R+"."+d.N] = true
+			if d.K == "meth" {
+				keys["."+d.R] = true
+			}
+		}
+		for _, sp := range d.Specs {
+			for _, n := range sp.Ns {
+				keys["."+n] = true
+			}
+		}
+	}
+	for i := range r.V.Decls {
+		d := &r.V.Decls[i]
+		if d.D != "" {
+			return true
+		}
+		if isFn(d) && keys[d.R+"."+d.N] {
+			return true
+		}
+		for _, sp := range d.Specs {
+			if sp.D != "" {
+				return true
+			}
+			for _, n := range sp.Ns {
+				if keys["."+n] {
+					return true
+				}
+			}
+		}
+	}
+	return false
+}
+
+// ---------------------------------------------------------------- Run
+
+// Run is the C12 check.
+func Run(c *core.Ctx, pool *gjs.Pool) {
+	c.Assumef("the reference is the documentation: doc/pargma.md and the comments of parseAndAugment, overrideInfo and pruneImports (a method with an override of its own is not removed with its purged receiver type; a file left without declarations and without a linkname directive loses all imports, blank and dot ones included; dot and blank imports are otherwise never removed)")
+	c.Assumef("a pair is consistent (must type-check after the merge) when every method has its receiver type with matching genericity, every keep-original function has a non-generic original to refer to, and a kept dot import is still used (Overlay!TypeChecks); go/types with a fixed importer for the seven packages of the universe is the judge")
+	c.Assumef("guard: the rendered original alone must be accepted/rejected by go/types exactly as Overlay!OrigAlone says; otherwise the pair is discarded")
+	if rp := os.Getenv("VERIF_REPLAY"); rp != "" {
+		replay(c, rp)
+		return
+	}
+	rng := rand.New(rand.NewSource(c.Seed))
+	var recs []*recT
+	invalid := 0
+	runScen := func(name string, cfg scenCfg, files map[string]string) bool {
+		r, err := tlcx.Run(c, tlcx.Opts{Module: "OverlayScen", Cfg: cfg.text(), Workers: 8, Timeout: 40 * time.Minute, Files: files, HeapMB: 8192})
+		if !tlcx.MustComplete(c, r, err, "OverlayScen ("+name+")") {
+			return false
+		}
+		rs, inv, err := loadRecs(r.Dir)
+		if err != nil {
+			c.Infra(fmt.Errorf("decode scenarios: %v", err))
+			return false
+		}
+		c.Set("pairs_"+name, len(rs))
+		recs = append(recs, rs...)
+		invalid += inv
+		os.RemoveAll(r.Dir)
+		return true
+	}
+	// 1. exhaustive product over a reduced universe
+	full := scenCfg{names: []string{"A", "B"}, fu: []string{""}, vu: []string{""}, ips: []string{"vp/pkg"}, bls: "{FALSE}", mode: "full",
+		classes: []string{"func", "meth", "lnk", "type1", "var1", "const1", "iota"}, maxo: 1, maxv: 1}
+	if c.Thorough() {
+		full.fu, full.vu = []string{"", "pl", "us"}, []string{"", "pl"}
+		full.classes = []string{"func", "meth", "lnk", "type1", "type2", "var1", "const1", "iota"}
+		full.maxo = 2
+	}
+	if !runScen("full", full, nil) {
+		return
+	}
+	c.Phase("tlc-full")
+	// 2. seeded sample of the whole universe
+	npairs := c.Pick(24000, 600000)
+	const perBatch, perChunk = 64, 40
+	files := map[string]string{}
+	nchunks := 0
+	for done := 0; done < npairs; {
+		var chunk [][]pairDesc
+		for b := 0; b < perChunk && done < npairs; b++ {
+			var batch []pairDesc
+			for k := 0; k < perBatch && done < npairs; k++ {
+				batch = append(batch, genPair(rng))
+				done++
+			}
+			chunk = append(chunk, batch)
+		}
+		nchunks++
+		j, _ := json.Marshal(chunk)
+		files[fmt.Sprintf("c12_chunk_%d.json", nchunks)] = string(j)
+	}
+	all := []string{"", "pl", "nm", "dot", "us", "sy", "syn"}
+	sample := scenCfg{names: []string{"A", "B", "C", "D"}, fu: all, vu: all[:5], ips: []string{"vp/pkg"}, bls: "{FALSE}", mode: "sample",
+		classes: classNames, maxo: 3, maxv: 3, nchunks: nchunks}
+	if !runScen("sample", sample, files) {
+		return
+	}
+	c.Phase("tlc-sample")
+	c.Set("checker_cmd", "tlc OverlayScen (INVARIANT Thm: OverlayAllIn, NoDupKeys, EmptyIsIdentity, Unrelated, OnlyInputs on every pair; INVARIANT Emit), Mode=full then Mode=sample")
+	c.Set("exhaustive", false)
+	c.Set("exhaustive_part", fmt.Sprintf("Mode=full: every pair of well-formed sides with <= %d original and <= %d overlay declarations over names %v, classes %v, body uses %v", full.maxo, full.maxv, full.names, full.classes, full.fu))
+	c.Set("sample_descriptors", npairs)
+	c.Set("sample_descriptors_not_wellformed", invalid)
+	c.Set("rule", "TLC enumerates (a) the full product of well-formed sides over the reduced universe and (b) VERIF_SEED-chosen pair descriptors over the 4-name universe (<= 3 declarations per side, every declaration class, directive variant and import use); a case is one pair (original side, overlay side, import path); distinct = distinct pairs; non-trivial = the overlay shares a key or receiver type with the original or carries a directive")
+	if os.Getenv("VERIF_C12_CORRUPT") == "pred" {
+		for _, r := range recs {
+			if len(r.M) > 0 && nontrivial(r) {
+				r.M[0].Ord++
+				break
+			}
+		}
+	}
+	decideAll(c, recs)
+	c.Phase("replay")
+	stdlib(c)
+	c.Phase("stdlib")
+}
+
+func decideAll(c *core.Ctx, recs []*recT) {
+	seen := map[string]bool{}
+	var uniq []*recT
+	for _, r := range recs {
+		k := canonical(r)
+		if seen[k] {
+			continue
+		}
+		seen[k] = true
+		uniq = append(uniq, r)
+		if nontrivial(r) {
+			c.Distinct(k)
+		}
+	}
+	c.Set("evaluations", len(uniq))
+	nw := c.Workers
+	type res struct {
+		r  *recT
+		oc *outcome
+		st int
+	}
+	bad := make([][]res, nw)
+	discards := make([]int, nw)
+	tcs := make([]int, nw)
+	c.ParMap(nw, func(w int) {
+		for i := w; i < len(uniq); i += nw {
+			r := uniq[i]
+			style := i % 16
+			oc := decide(r, style)
+			if oc.discard != "" {
+				discards[w]++
+				if len(bad[w]) < 3 {
+					bad[w] = append(bad[w], res{r, oc, style})
+				}
+				continue
+			}
+			if r.Tc {
+				tcs[w]++
+			}
+			if oc.panicMsg != "" || len(oc.missing)+len(oc.extra)+len(oc.notes)+len(oc.tcErrs) > 0 {
+				bad[w] = append(bad[w], res{r, oc, style})
+			}
+		}
+	})
+	nd, ntc := 0, 0
+	for w := range discards {
+		nd += discards[w]
+		ntc += tcs[w]
+	}
+	c.Set("spec_guard_discards", nd)
+	c.Set("traces_validated_against_impl", len(uniq)-nd)
+	c.Set("pairs_type_checked", ntc)
+	for _, bs := range bad {
+		for _, b := range bs {
+			sj, _ := json.MarshalIndent(b.r, "", " ")
+			files := map[string]string{"scenario.json": string(sj) + "\n", "style.txt": fmt.Sprint(b.st) + "\n", "original.go": b.oc.origSrc, "overlay.go": b.oc.ovlSrc, "merged.txt": b.oc.merged}
+			if b.oc.discard != "" {
+				fmt.Printf("note: pair discarded by the guard: %s\n", b.oc.discard)
+				if os.Getenv("VERIF_VERBOSE") != "" {
+					fmt.Printf("%s\n%s\n", b.oc.origSrc, b.oc.ovlSrc)
+				}
+				continue
+			}
+			if b.oc.panicMsg != "" {
+				c.Report(core.Case{Keys: nil, Summary: "the augmentation panicked: " + b.oc.panicMsg, Files: files})
+				continue
+			}
+			for _, p := range classify(b.r, b.oc) {
+				c.Report(core.Case{Keys: p.keys, Summary: "merged package differs from the documented merge: " + p.summary, Files: files})
+			}
+		}
+	}
+	for i := 0; i < len(uniq) && i < 5*997; i += 997 {
+		r := uniq[i]
+		c.Sample(map[string]any{"original": renderSide(&r.O, 1, 0), "overlay": renderSide(&r.V, 2, 0), "predicted_items": len(r.M), "must_type_check": r.Tc})
+	}
+}
+
+func replay(c *core.Ctx, dir string) {
+	b, err := os.ReadFile(filepath.Join(dir, "scenario.json"))
+	if err != nil {
+		c.Infra(err)
+		return
+	}
+	var r recT
+	if err := json.Unmarshal(b, &r); err != nil {
+		c.Infra(err)
+		return
+	}
+	style := 0
+	if sb, err := os.ReadFile(filepath.Join(dir, "style.txt")); err == nil {
+		fmt.Sscan(string(sb), &style)
+	}
+	c.Set("evaluations", 1)
+	oc := decide(&r, style)
+	if oc.discard != "" {
+		fmt.Println("discarded by the guard:", oc.discard)
+		c.Set("spec_guard_discards", 1)
+		return
+	}
+	fmt.Print(oc.merged)
+	if oc.panicMsg != "" {
+		c.Report(core.Case{Summary: "the augmentation panicked: " + oc.panicMsg, Files: map[string]string{"scenario.json": string(b)}})
+	}
+	for _, p := range classify(&r, oc) {
+		c.Report(core.Case{Keys: p.keys, Summary: "merged package differs from the documented merge: " + p.summary, Files: map[string]string{"scenario.json": string(b), "style.txt": fmt.Sprint(style) + "\n"}})
+	}
+}
